@@ -672,8 +672,8 @@ fn edits_of(case: &AstCase) -> Option<(String, Vec<(String, SchemaMut)>)> {
 fn run_base_range(tier: &str, set: &sgen::BaseSet, range: std::ops::Range<usize>, edit_max_named: usize) -> (Cover, Vec<Violation>) {
 	let mut cover = Cover::default();
 	let mut out: Vec<Violation> = Vec::new();
-	let plan_small = sgen::Plan { product_names_refs: true, product_cap: 100_000, diag: true, diag_full_max_named: 2, full_product_max_named: 0, all_sites_product_max_named: 0, cfg_product_max_named: 0 };
-	let plan_big = sgen::Plan { product_names_refs: false, product_cap: 0, diag: true, diag_full_max_named: 2, full_product_max_named: 0, all_sites_product_max_named: 0, cfg_product_max_named: 0 };
+	let plan_small = sgen::Plan { product_names_refs: true, product_cap: 100_000, diag: true, diag_full_max_named: 2, full_product_max_named: 0, all_sites_product_max_named: 0, cfg_product_max_named: 0, escapes: 1 };
+	let plan_big = sgen::Plan { product_names_refs: false, product_cap: 0, diag: true, diag_full_max_named: 2, full_product_max_named: 0, all_sites_product_max_named: 0, cfg_product_max_named: 0, escapes: 1 };
 	// the cases whose edits are judged; the worker screens their cyclic edits meanwhile
 	let edited: Vec<AstCase> = range.clone().map(|i| set.case(i)).filter(|c| c.expect == Expect::Valid && c.feats.named <= edit_max_named).collect();
 	let file = std::env::temp_dir().join(format!("vcheck-c09-{}-{}.txt", std::process::id(), range.start));
@@ -760,7 +760,7 @@ pub fn run(rep: &mut Report) {
 	let edit_max_named = if thorough { 3 } else { 2 };
 	let hist_depth = if thorough { 5 } else { 4 };
 	rep.rule = format!(
-		"SAE. (a) parsed documents: C07's valid ASTs and forward-reference variants; spellings: 'every site takes option k' (k=0..3) under all 18 document-level configurations (attribute order x extra attributes incl. unknown keys with nested JSON x whitespace) for ASTs with <= 2 named types (larger ASTs: k=0..3 plain + k=1 under the 17 other configurations), plus the per-site product of name/reference spellings for ASTs with <= 2 named types; oracle: Schema::from_str(..).json() = SchemaMut::from_str(..).freeze().json(), no whitespace outside strings, and equal to the original as ordered JSON (own reader: same keys in the same order, numbers by value). (b) programmatic graphs via SchemaMut::from_nodes: every assignment of one option to each node of an n-node vector, options = int, string, array(k), map(k), union(k1!=k2), record(1 field k / 2 fields k1,k2) in each namespace, enum and fixed in each namespace (+ logical annotations date/uuid/decimal/duration/unknown on int, string, bytes, fixed, enum, array, record) with every in-range key, kept when all nodes are reachable, unions are spec-valid and fullnames unique; levels: {}. Graphs whose cycles all pass through a named node: serde_json::to_string Ok, the text resolves (vmodel resolver, leading-dot references allowed) to exactly the unfolded graph, freeze Ok with the same text and fingerprint = CRC-64-AVRO(pcf(unfolded graph)), the crate's parser reads the text back to a bisimilar graph with the same fingerprint (graphs with an unconditional record cycle: reference resolver only). Graphs with a cycle through unnamed nodes only: serde_json::to_string and freeze() must both return Err (no crash). Every rendering / freeze of a graph that contains any cycle is first executed in a worker subprocess (one per unit; SIGSEGV/SIGABRT/SIGALRM attributed to the case in flight, horizon {HORIZON_S} s, worker restarted behind the case). (c) edited: the plain spelling of each valid AST with <= {edit_max_named} named types parsed, then through nodes_mut(): no change / each named node renamed to Q in each namespace / a field added to each record pointing at each node; judged like (b), cyclic ones screened in a worker first. (d) HIST: every history of <= {hist_depth} operations from {{b = a.clone(); and for a and b: canonical_form_rabin_fingerprint(), serde_json::to_string(), freeze() (consumes the object), 5 edits through nodes_mut()}} on 5 base schemas (parsed with extra attributes / built), explicit-state BFS with states rebuilt per history; invariant after every operation: serde_json::to_string and freeze().json() report what a fresh SchemaMut::from_nodes(current nodes) renders (a parsed, never edited object: the original document on freeze), and that rendering denotes the current nodes. Non-trivial: (a) documents with a reference, a namespace transition or extra attributes; (d) histories with an observation or clone, then an edit, then an observation; (b)/(c) graphs with a shared or cyclic named node or a namespace transition; distinct by text / node vector.",
+		"SAE. (a) parsed documents: C07's valid ASTs and forward-reference variants; spellings: 'every site takes option k' (k=0..3) under all 18 document-level configurations (attribute order x extra attributes incl. unknown keys with nested JSON x whitespace) for ASTs with <= 2 named types (larger ASTs: k=0..3 plain + k=1 under the 17 other configurations), plus the per-site product of name/reference spellings for ASTs with <= 2 named types; oracle: Schema::from_str(..).json() = SchemaMut::from_str(..).freeze().json(), no whitespace outside strings, and equal to the original as ordered JSON (own reader: same keys in the same order, numbers by value). (b) programmatic graphs via SchemaMut::from_nodes: every assignment of one option to each node of an n-node vector, options = int, string, array(k), map(k), union(k1!=k2), record(1 field k / 2 fields k1,k2) in each namespace, enum and fixed in each namespace (+ logical annotations date/uuid/decimal/duration/unknown on int, string, bytes, fixed, enum, array, record) with every in-range key, kept when all nodes are reachable, unions are spec-valid and fullnames unique; levels: {}. Graphs whose cycles all pass through a named node: serde_json::to_string Ok, the text resolves (vmodel resolver, leading-dot references allowed) to exactly the unfolded graph, freeze Ok with the same text and fingerprint = CRC-64-AVRO(pcf(unfolded graph)), the crate's parser reads the text back to a bisimilar graph with the same fingerprint (graphs with an unconditional record cycle: reference resolver only). Graphs with a cycle through unnamed nodes only: serde_json::to_string and freeze() must both return Err (no crash). Every rendering / freeze of a graph that contains any cycle is first executed in a worker subprocess (one per unit; SIGSEGV/SIGABRT/SIGALRM attributed to the case in flight, horizon {HORIZON_S} s, worker restarted behind the case). (c) edited: the plain spelling of each valid AST with <= {edit_max_named} named types parsed, then through nodes_mut(): no change / each named node renamed to Q in each namespace / a field added to each record pointing at each node; judged like (b), cyclic ones screened in a worker first. (d) HIST: every history of <= {hist_depth} operations from {{b = a.clone(); a.clone_from(&b); b.clone_from(&a); and for a and b: canonical_form_rabin_fingerprint(), serde_json::to_string(), freeze() (consumes the object), 5 edits through nodes_mut()}} on 5 base schemas (parsed with extra attributes / built), explicit-state BFS with states rebuilt per history; invariant after every operation: serde_json::to_string and freeze().json() report what a fresh SchemaMut::from_nodes(current nodes) renders (a parsed, never edited object: the original document on freeze), and that rendering denotes the current nodes. Non-trivial: (a) documents with a reference, a namespace transition or extra attributes; (d) histories with an observation or clone, then an edit, then an observation; (b)/(c) graphs with a shared or cyclic named node or a namespace transition; distinct by text / node vector.",
 		lv.iter().map(|b| format!("{} (n={}, namespaces {:?}{})", b.label, b.n, b.namespaces, if b.canonical_only { ", one numbering per renumbering class" } else { ", all numberings" })).collect::<Vec<_>>().join("; "),
 	);
 	rep.assumptions.push("vmodel::schema::resolve_text implements the specification's name resolution (plus the crate's documented leading-dot spelling for null-namespace references)".into());
